@@ -76,7 +76,15 @@ def parse(data):
     try:
         p.Parse(data, True)
     except xml.parsers.expat.ExpatError as e:
-        raise UiSyntaxError(str(e))
+        err = UiSyntaxError(str(e))
+        err.lineno, err.offset = e.lineno, e.offset
+        # character the parser stopped at
+        try:
+            i = p.ErrorByteIndex
+            err.char = data[i:i + 4].decode("utf-8", "ignore")[:1] if i >= 0 else None
+        except Exception:
+            err.char = None
+        raise err
     if root[0] is None:
         raise UiSyntaxError("no root element")
     return root[0]
@@ -172,6 +180,9 @@ for leaf in ("family", "pointsize", "weight", "italic", "bold", "underline", "st
              "horstretch", "verstretch"):
     GRAMMAR[leaf] = (set(), set())
 
+STRUCTURAL = {"ui", "class", "widget", "layout", "item", "spacer", "action", "addaction", "property", "attribute",
+              "customwidgets", "customwidget", "extends", "header"}
+
 PARENT_SPECIFIC = {
     # (parent, child) pairs that are NOT allowed although the child is in the parent's set
     ("item", "property"): lambda item: item.parent is not None and item.parent.tag == "widget",
@@ -192,9 +203,12 @@ def grammar_alarms(root, strict_values=True):
             alarms.append("unknown element <%s> under <%s>" % (n.tag, n.parent.tag if n.parent else None))
             continue
         attrs, kids = g
-        for a in n.attrs:
-            if a not in attrs:
-                alarms.append("attribute %s on <%s>" % (a, n.tag))
+        if n.tag in STRUCTURAL:
+            # the property speaks of element structure; unknown attributes are flagged on the
+            # structural elements only (uic ignores extra attributes on value elements)
+            for a in n.attrs:
+                if a not in attrs:
+                    alarms.append("attribute %s on <%s>" % (a, n.tag))
         for c in n.children:
             if c.tag not in kids:
                 alarms.append("<%s> under <%s>" % (c.tag, n.tag))
